@@ -22,7 +22,7 @@ PLAN = {
                    "Iter.Reverse on router, read transaction and uncommitted write transaction must agree. Small pattern pools x all short "
                    "paths are enumerated exhaustively.",
         level_note="Trusts harness/ref/match.go as the reading of the documented priority rules; requests on which three readings of an "
-                   "undocumented corner (catch-all value starting with '/') disagree are not judged and are counted; open finding E is excluded by signature.",
+                   "undocumented corner (catch-all value starting with '/') disagree are not judged and are counted.",
         rule="cases: (route set, request) pairs; non-trivial = the reference backtracked at least once, or a wildcard captured a value, or "
              "hostname routes were tried before falling back to path-only routes; distinct by (method, sorted patterns, host, path)",
         assumptions=["reference matcher encodes the documented rules", "request paths have no empty segments; Host values are well formed"],
@@ -116,7 +116,7 @@ PLAN = {
                    "request targets with reserved characters and query strings, the reference matcher run on the path and on its "
                    "slash-adjusted form predicts the tsr flag, the route and its parameters; the dispatch rules of the property predict "
                    "served / redirected / unmatched; the Location header is parsed and resolved like a client would. Small pools are enumerated exhaustively.",
-        level_note="Trusts the reference matcher and net/url's reference resolution; ambiguity (catch-all value starting with '/') and open finding E are counted and not judged.",
+        level_note="Trusts the reference matcher and net/url's reference resolution; ambiguity (catch-all value starting with '/') is counted and not judged.",
         rule="cases: (options, route set, request target); non-trivial = the reference prescribes a trailing-slash action and the method has "
              ">= 2 routes; distinct by (options, method, sorted patterns, host, target)",
         assumptions=["routing path = URL.RawPath when present, URL.Path otherwise (documented in fox)", "no empty path segments"],
